@@ -397,15 +397,24 @@ def replay_evo(rep, light=False, traces=None):
                     reo = opts['reortho'] = bool((rep.variant // 2 + run['Nmax']) % 2)
                 share = bool((rep.variant + run['Nmax']) % 2)      # one engine for all time steps, or a fresh one for every run
                 eng = None
-                deltas = [('iq', t, 1j * math.pi / 2 * t) for t in (1, 2, 3)] + [('gen', j, d) for j, d in enumerate(GEN_DELTAS)]
+                # (kind, index, delta, normalized by default?)  -- the general exponents and the default come from the spec
+                deltas = [('iq', t, 1j * math.pi / 2 * t, True) for t in (1, 2, 3)]
+                for j, dd in enumerate(case.get('deltas', [])):
+                    val = dd['re'] / 4 if dd['ctype'] == 'float' else complex(dd['re'] / 4, dd['im'] / 4)
+                    deltas.append(('gen', j, val, dd['normdefault']))
+                if 'deltas' not in case:
+                    deltas += [('gen', j, d, d.real == 0) for j, d in enumerate(GEN_DELTAS)]
                 if light:
                     deltas = deltas[rep.variant % 3::3]
-                for dk, t, delta in deltas:
+                for dk, t, delta, normdef in deltas:
+                    if name == 'ArnoldiEvolution':
+                        normdef = False            # documented: ArnoldiEvolution.run does not normalize by default
                     psi0 = B.vec()
                     scale = B.scale * max(1.0, nv) * math.exp(max(0.0, delta.real) * lam_max)
                     tol = TOL * scale * (1 + abs(delta) * lam_max)
                     x = None
-                    for normalize in ((False, True) if (light or (dk, t) in (('iq', 1), ('gen', 0))) else (False,)):
+                    for normalize in ((False, True, None) if (dk, t) in (('iq', 1), ('gen', 0)) else
+                                      ((False, None) if (dk == 'gen' or light) else (False,))):
                         reused = share and eng is not None             # this engine has already been run
                         classes = dict(engine=name, ncache=cls_nc(nc), exhausted=run['exhausted'], shift=bool(sigma), delta=dk,
                                        herm=herm, reused=reused, reortho=reo, normalize=normalize)
@@ -413,7 +422,10 @@ def replay_evo(rep, light=False, traces=None):
                             warnings.simplefilter('ignore')
                             if eng is None or not share:
                                 eng = cls(B.op(), psi0, dict(opts))
-                            res, N = eng.run(delta, normalize=normalize)
+                            if normalize is None:
+                                res, N = eng.run(delta)             # `normalize` not given: the documented default
+                            else:
+                                res, N = eng.run(delta, normalize=normalize)
                         rep.count(name, (run['Nmax'], cls_nc(nc), dk, t, normalize))
                         y = B.arr(res)
                         det = dict(options=opts, delta=[delta.real, delta.imag], N=int(N), normalize=normalize,
@@ -427,6 +439,16 @@ def replay_evo(rep, light=False, traces=None):
                         if int(N) != run['N']:
                             bad('N', expected=run['N'])
                             break
+                        if normalize is None:
+                            classes['delta_type'] = type(delta).__name__
+                            classes['delta_re0'] = bool(delta.real == 0)
+                            if x is None:
+                                continue
+                            ref = x / np.linalg.norm(x) if normdef else x
+                            if rel(y - ref) > tol + TOL:
+                                bad('normalize-default', expected_normalized=bool(normdef), norm=float(np.linalg.norm(y)),
+                                    norm_unnormalized=float(np.linalg.norm(x)))
+                            continue
                         if normalize:
                             if abs(np.linalg.norm(y) - 1.0) > TOL:
                                 bad('normalize-true-norm', got=float(np.linalg.norm(y)))
@@ -765,8 +787,45 @@ def replay_gs(rep, light=False):
                 break
 
 
+def replay_gsill(rep, light=False):
+    """gram_schmidt on nearly parallel vectors: loss of orthogonality <= c eps kappa (modified Gram-Schmidt)"""
+    from tenpy.linalg import krylov_based as kb
+    case = rep.case
+    B = hk.Built(case, rep.variant)
+    vecs = [hk.bv_flat(x) for x in case['vecs']]
+    k = len(vecs)
+    S = case['S']
+    # exact Gram matrix from the spec's polynomial (Python integers), then the condition number of the vector set
+    G = np.array([[complex(S * S * g['g2'][0] + S * g['g1'][0] + g['g0'][0], S * S * g['g2'][1] + S * g['g1'][1] + g['g0'][1])
+                   for g in row] for row in case['gram']])
+    ev = np.linalg.eigvalsh(G)
+    if ev[0] <= 0:
+        raise core.MachineryError('gsill: Gram matrix not positive numerically (%r)' % (ev,))
+    kappa = math.sqrt(ev[-1] / ev[0])
+    cplx = any(np.any(x.imag != 0) for x in vecs) or not B.real
+    for rcond in (1.0e-12, None):
+        work = [B.vec(x, dtype=np.complex128 if cplx else np.float64) for x in vecs]
+        out = kb.gram_schmidt(work, rcond=rcond) if rcond is not None else kb.gram_schmidt(work)
+        rep.count('gram_schmidt', ('illcond', k, rcond))
+        classes = dict(nvec=k, illcond=True)
+        if len(out) != k:
+            rep.fail('gram_schmidt', 'kept-vectors', classes, dict(n_out=len(out), expected=k, kappa=kappa))
+            continue
+        X = [B.arr(o) for o in out]
+        Q = np.array([[np.vdot(a, b) for b in X] for a in X])
+        loss = rel(Q - np.eye(k))
+        bound = 100 * k * np.finfo(float).eps * kappa
+        if loss > bound:
+            rep.fail('gram_schmidt', 'orthonormal', classes, dict(loss=loss, bound=bound, kappa=kappa, gram=str(Q)))
+        for r, x in enumerate(vecs):
+            resid = x - sum((np.vdot(o, x) * o for o in X), np.zeros_like(x))
+            if rel(resid) > bound * max(1.0, rel(x)):
+                rep.fail('gram_schmidt', 'span', classes, dict(vector=r, resid=rel(resid), bound=bound * rel(x)))
+                break
+
+
 REPLAY = dict(lanczos=replay_lanczos, evo=replay_evo, arnoldi=replay_arnoldi, gmres=replay_gmres, gs=replay_gs,
-              gmresill=replay_gmresill, jevo=replay_jevo)
+              gmresill=replay_gmresill, jevo=replay_jevo, gsill=replay_gsill)
 
 
 def replay_case(ctx, case, origin, variant, light, traces):
@@ -796,7 +855,7 @@ def replay_case(ctx, case, origin, variant, light, traces):
 # stages
 # ------------------------------------------------------------------------------------------------
 KINDS = ('lanczos', 'evo', 'arnoldi', 'gmres', 'gs')        # kinds of the random catalogue
-ALL_KINDS = KINDS + ('gmresill', 'jevo')
+ALL_KINDS = KINDS + ('gmresill', 'jevo', 'gsill')
 
 
 def run_control_flow(tier):
@@ -817,7 +876,7 @@ def account_control_flow(ctx, maxn, res):
 
 
 # all eigenvalues distinct and reachable: Krylov dimensions 3..8 guaranteed (every branch of the cache machine is recorded)
-LADDER = ('ladder', dict(Kinds={'lanczos', 'evo'}, Flavours={'herm'}, Charges={0}, Sizes={3, 4}, MaxBlocks=2, MaxDim=8,
+LADDER = ('ladder', dict(Kinds={'lanczos', 'evo', 'gsill'}, Flavours={'herm'}, Charges={0}, Sizes={3, 4}, MaxBlocks=2, MaxDim=8,
                          Perms={'cyc'}, UnitKinds={'gau'}, AVals='<-AValsOne', DMode='ladder', Sigmas='<-SigmasPM'))
 
 
@@ -1049,7 +1108,7 @@ def check(ctx):
                 'BReortho', 'BBeta', 'BBreak', 'BNext', 'RUnshift', 'RReturn1', 'RMul', 'RCached', 'RClear', 'QCache', 'QMatvec', 'QAlpha',
                 'QReortho', 'QBeta', 'QScale', 'QAdd', 'RNorm', 'RReturn']
         need += ['Tr' + a for a in need[13:]] + ['TrStart', 'TrAccept']
-        need += ['DoOptGmresIll', 'DoOptJevo', 'DoBuildJ']
+        need += ['DoOptGmresIll', 'DoOptJevo', 'DoBuildJ', 'DoOptGsIll']
         never = [a for a in need if ctx.coverage_actions.get(a, (0, 0))[1] == 0]
         ctx.notes['actions_never_taken'] = never
         if never and not ctx.violations:
